@@ -396,6 +396,7 @@ func (s *Sim) execTL(ev *TLEvent) {
 		}
 	case "lag": // scripted replication lag in seconds (custom replication_lag query); N<0 = NULL/unknown
 		if sv != nil {
+			sv.LagNull = ev.N == -2
 			if ev.N < 0 {
 				sv.LagOverride = nil
 			} else {
